@@ -135,6 +135,9 @@ pub struct Exec<'p> {
     pub on_op: Option<Box<dyn FnMut(&mut Exec<'p>) + 'p>>,
     /// versions: dump before each commit (engines K / A)
     pub on_commit: Option<Box<dyn FnMut(&Dump, &World, bool) + 'p>>,
+    /// engines A and K: a structurally broken forest (C01's finding) does not end the run, so that the
+    /// broken version is committed and met by a reader / a restart ("complete and searchable", "passes C01")
+    pub keep_going_on_broken_forest: bool,
     pub deep_queries: bool,
     pub cancel_budget_override: Option<u64>,
     pub sys: Arc<crate::interpose::SysState>,
@@ -225,6 +228,7 @@ impl<'p> Exec<'p> {
             last_build_steps: Vec::new(),
             on_op: None,
             on_commit: None,
+            keep_going_on_broken_forest: false,
             deep_queries: false,
             cancel_budget_override: None,
             sys,
@@ -275,6 +279,7 @@ impl<'p> Exec<'p> {
             last_build_steps: Vec::new(),
             on_op: None,
             on_commit: None,
+            keep_going_on_broken_forest: false,
             deep_queries: false,
             cancel_budget_override: None,
             sys,
@@ -553,8 +558,13 @@ impl<'p> Exec<'p> {
 
     fn decode_check(&mut self, d: &Dump) -> R<BTreeMap<u16, DecodedIndex>> {
         let w = self.world.clone();
-        match decode_dump(d, &|i| w.metric_of(i)) {
-            Ok(x) => Ok(x),
+        match decode::decode_dump_lenient(d, &|i| w.metric_of(i)) {
+            Ok((x, deviations)) => {
+                if let Some(e) = deviations.into_iter().next() {
+                    self.report(&["C16"], "reference_decoder", e)?;
+                }
+                Ok(x)
+            }
             Err(e) => {
                 self.report(&["C16"], "reference_decoder", e)?;
                 Err(Stop::Unevaluable("dump does not decode under the reference layout".into()))
@@ -1593,7 +1603,7 @@ impl<'p> Exec<'p> {
             };
             self.report(&props, k, detail)?;
         }
-        if forest_broken {
+        if forest_broken && !self.keep_going_on_broken_forest {
             return Err(Stop::Unevaluable("forest invalid".into()));
         }
         Ok(())
